@@ -260,6 +260,58 @@ def oracle(chk, F, pkg, quick):
                 ref = d * d * numpy.einsum("...ab,ak,bl->...kl", x, ker, ker)
                 if numpy.abs(X - ref).max() > TOL * n * n * sc * max(d * d, 1):
                     bad("centred:ft2:%s:%s" % (ename, par), "%s.ft2 origin is not the centre sample for n=%d" % (ename, n), n=n)
+    # other input classes: single precision (tolerance of the data type, not of binary64), non-contiguous views, and non-square
+    # 2-D arrays (the inverse pair holds with delta_f = 1/(N_last*delta); Parseval with ONE scalar delta_f is only meaningful for
+    # square arrays, which is the domain used for it above)
+    for ename, M in entries:
+        for n in (4, 5, 8, 9, 16):
+            chk.oracle_cases += 1
+            chk.case(("oracle-classes", n, ename))
+            d, df = 0.5, 1.0 / (n * 0.5)
+            x32 = rand_field(nprng, (n,), "gauss").astype("complex64")
+            r32 = rand_field(nprng, (n,), "gauss").real.astype("float32")
+            for lab, x in (("complex64", x32), ("float32", r32)):
+                back = M.ift(M.ft(x, d), df)
+                if back.shape != x.shape or numpy.abs(back - x).max() > 200 * numpy.finfo("float32").eps * (numpy.abs(x).max() + 1e-30):
+                    bad("inverse:ift∘ft:%s:%s" % (ename, lab), "%s.ift(ft(x)) ≠ x for %s data, n=%d (err %.3g)"
+                        % (ename, lab, n, float(numpy.abs(back - x).max())), n=n, dtype=lab)
+            big = rand_field(nprng, (3, 2 * n), "gauss")
+            xv = big[:, ::2]                                   # a strided (non-contiguous) view
+            if numpy.abs(M.ft(xv, d) - M.ft(numpy.ascontiguousarray(xv), d)).max() > TOL * n * (numpy.abs(xv).max() + 1e-300):
+                bad("layout:ft:%s" % ename, "ft of a strided view differs from ft of its contiguous copy, n=%d" % n, n=n)
+            xt = rand_field(nprng, (n, n), "gauss").T          # Fortran-ordered
+            if numpy.abs(M.ft2(xt, d) - M.ft2(numpy.ascontiguousarray(xt), d)).max() > TOL * n * n * (numpy.abs(xt).max() + 1e-300):
+                bad("layout:ft2:%s" % ename, "ft2 of a transposed view differs from ft2 of its contiguous copy, n=%d" % n, n=n)
+        for (m_, n_) in ((4, 6), (6, 4), (3, 8), (5, 7)):
+            chk.oracle_cases += 1
+            chk.case(("oracle-nonsquare", m_, n_, ename))
+            d = 0.5
+            x = rand_field(nprng, (m_, n_), "gauss")
+            back = M.ift2(M.ft2(x, d), 1.0 / (n_ * d))
+            if back.shape != x.shape or numpy.abs(back - x).max() > TOL * (numpy.abs(x).max() + 1e-300):
+                bad("inverse:ift2∘ft2:%s:nonsquare" % ename, "%s.ift2(ft2(x,δ),1/(N_last δ)) ≠ x for a %dx%d array" % (ename, m_, n_), shape=[m_, n_])
+        # batched real variants
+        for shape in ((3, 8), (2, 3, 6)):
+            chk.oracle_cases += 1
+            chk.case(("oracle-real-batch", shape, ename))
+            x = nprng.normal(size=shape)
+            n = shape[-1]
+            back = M.irft(M.rft(x, 0.5), 1.0 / (n * 0.5))
+            if back.shape != x.shape or numpy.abs(back - x).max() > TOL * numpy.abs(x).max():
+                bad("real:irft∘rft:batch", "%s.irft(rft(x)) ≠ x for a stack of shape %s" % (ename, shape), shape=list(shape))
+            for idx in numpy.ndindex(*shape[:-1]):
+                if numpy.abs(M.rft(x, 0.5)[idx] - M.rft(x[idx], 0.5)).max() > TOL * n * numpy.abs(x).max():
+                    bad("real:rft:batch", "rft of a stack differs from rft of the frame, shape %s" % (shape,), shape=list(shape))
+                    break
+        chk.oracle_cases += 1
+        x = nprng.normal(size=(2, 6, 6))
+        try:
+            back = M.irft2(M.rft2(x, 0.5), 1.0 / (6 * 0.5))
+            ok = back.shape == x.shape and numpy.abs(back - x).max() <= TOL * numpy.abs(x).max()
+        except Exception:
+            ok = False
+        if not ok:
+            bad("real:irft2∘rft2:batch", "%s.irft2(rft2(x)) ≠ x for a (2,6,6) stack" % ename, shape=[2, 6, 6])
     # real-input variants
     for n in list(range(2, 20)) + [32, 33]:
         par = "odd" if n % 2 else "even"
